@@ -132,6 +132,22 @@ fn state_text(d: &Discoverer<u32>, specs: &[EntrySpec], n: &mut Names) -> String
     if items.is_empty() { "-".into() } else { items.join(" ") }
 }
 
+/// what a discoverer that has seen everything reports: the existing objects that match an entry and carry all its services
+fn expected_view(specs: &[EntrySpec], world: &World, names: &mut Names) -> String {
+    let mut expect = vec![];
+    for e in specs {
+        for (o, obj) in world.objects.iter() {
+            if e.object.map_or(true, |x| x == *o) && e.services.iter().all(|s| world.services.contains_key(&(*o, *s))) {
+                let mut svcs: Vec<String> = e.services.iter().map(|s| format!("{}:{}", s, names.ck(world.services[&(*o, *s)].id().cookie.0))).collect();
+                svcs.sort();
+                expect.push(format!("{}={}[{}]", e.key, obj_text(names, obj.id()), svcs.join(",")));
+            }
+        }
+    }
+    expect.sort();
+    if expect.is_empty() { "-".to_string() } else { expect.join(" ") }
+}
+
 async fn scenario(out: &mut Out, rng: &mut Rng) {
     let mut broker = TestBroker::new();
     let mut owner = broker.add_client().await;
@@ -178,6 +194,7 @@ async fn scenario(out: &mut Out, rng: &mut Rng) {
     out.emit("ddrain", &if evs.is_empty() { "-".to_string() } else { evs.join(" ") });
 
     let steps = 10 + rng.below(50);
+    let mut mid_failed = false;
     for _ in 0..steps {
         match rng.below(12) {
             0 => {
@@ -212,6 +229,16 @@ async fn scenario(out: &mut Out, rng: &mut Rng) {
                 watcher.handle().sync_broker().await.unwrap();
                 let evs = drain(&mut disc, &mut names);
                 out.emit("ddrain", &if evs.is_empty() { "-".to_string() } else { evs.join(" ") });
+                // the same convergence oracle in the middle of the history: the bus is quiet and everything is consumed
+                if !current_only && !mid_failed {
+                    let st = state_text(&disc, &specs, &mut names);
+                    let expect = expected_view(&specs, &world, &mut names);
+                    if expect != st {
+                        out.fail(&format!("(in the middle of the history, bus quiet, all events consumed) discoverer reports `{}` but the bus holds `{}`", st, expect), &spec_text.join(" "));
+                        mid_failed = true;
+                    }
+                    out.count("converged.checked_mid");
+                }
             }
         }
     }
@@ -222,18 +249,7 @@ async fn scenario(out: &mut Out, rng: &mut Rng) {
     let st = state_text(&disc, &specs, &mut names);
     out.emit("dstate", &st);
     if !current_only {
-        let mut expect = vec![];
-        for e in &specs {
-            for (o, obj) in world.objects.iter() {
-                if e.object.map_or(true, |x| x == *o) && e.services.iter().all(|s| world.services.contains_key(&(*o, *s))) {
-                    let mut svcs: Vec<String> = e.services.iter().map(|s| format!("{}:{}", s, names.ck(world.services[&(*o, *s)].id().cookie.0))).collect();
-                    svcs.sort();
-                    expect.push(format!("{}={}[{}]", e.key, obj_text(&mut names, obj.id()), svcs.join(",")));
-                }
-            }
-        }
-        expect.sort();
-        let expect = if expect.is_empty() { "-".to_string() } else { expect.join(" ") };
+        let expect = expected_view(&specs, &world, &mut names);
         if expect != st {
             out.fail(&format!("discoverer reports `{}` but the bus holds `{}`", st, expect), &spec_text.join(" "));
         }
